@@ -1,0 +1,31 @@
+//go:build verif
+// +build verif
+
+package json
+
+import (
+	"github.com/goccy/go-json/internal/decoder"
+	"github.com/goccy/go-json/internal/encoder"
+)
+
+// Re-exports of the verification hooks (build tag "verif") for harnesses outside this module.
+
+type (
+	VerifSlotStats     = encoder.VerifSlotStats
+	VerifEncCacheStats = encoder.VerifCacheStats
+	VerifDecCacheStats = decoder.VerifCacheStats
+)
+
+func VerifSlotArm(on bool)                              { encoder.VerifSlotArm(on) }
+func VerifSlotTake() (VerifSlotStats, []string)         { return encoder.VerifSlotTake() }
+func VerifCacheArm(on bool)                             { encoder.VerifCacheArm(on); decoder.VerifCacheArm(on) }
+func VerifEncCacheTake() (VerifEncCacheStats, []string) { return encoder.VerifCacheTake() }
+func VerifDecCacheTake() (VerifDecCacheStats, []string) { return decoder.VerifCacheTake() }
+func VerifEncTypeAddr() (base, max, shift, rng uintptr) { return encoder.VerifTypeAddr() }
+func VerifDecTypeAddr() (base, max, shift, rng uintptr) { return decoder.VerifTypeAddr() }
+
+// VerifSetYield installs f at every yield point of the encoder and decoder (nil removes it).
+func VerifSetYield(f func(point string)) {
+	encoder.VerifSetYield(f)
+	decoder.VerifSetYield(f)
+}
